@@ -240,6 +240,95 @@ fn main() {
             println!("fragments={}", frs.join(","));
             println!("parse_ok={}", parse_ok);
         }
+        // log_scenario steps...  A<len> append a record | K<bytes> keep the first <bytes> bytes and reopen the writer | X<offset> flip a byte
+        "log_scenario" => {
+            let fs: std::sync::Arc<dyn raindb::fs::FileSystem> = std::sync::Arc::new(raindb::fs::InMemoryFileSystem::new());
+            let path = std::path::PathBuf::from("wal-1.log");
+            let read_all = |fs: &std::sync::Arc<dyn raindb::fs::FileSystem>| -> Vec<u8> {
+                let f = fs.open_file(&path).unwrap();
+                let len = f.len().unwrap() as usize;
+                let mut buf = vec![0u8; len];
+                if len > 0 {
+                    f.read_from(&mut buf, 0).unwrap();
+                }
+                buf
+            };
+            let rewrite = |fs: &std::sync::Arc<dyn raindb::fs::FileSystem>, bytes: &[u8]| {
+                let mut f = fs.create_file(&path, false).unwrap();
+                if !bytes.is_empty() {
+                    f.append(bytes).unwrap();
+                }
+            };
+            // The in-memory file shares one cursor between all handles, so the file is never inspected while a
+            // writer is alive: every step opens its own writer in append mode (its block offset is len % 32768,
+            // the same value a continuing writer holds).
+            { let _ = v::VLogWriter::new(std::sync::Arc::clone(&fs), &path, false).unwrap(); }
+            let mut records: Vec<(Vec<u8>, usize, usize, bool)> = vec![]; // content, start, end, intact
+            for st in &a[1..] {
+                let (op, arg) = st.split_at(1);
+                let n = num(arg) as usize;
+                match op {
+                    "A" => {
+                        let k = records.len();
+                        let rec: Vec<u8> = (0..n).map(|j| ((k * 37 + j * 7 + 1) % 251) as u8).collect();
+                        let start = read_all(&fs).len();
+                        let ok = {
+                            let mut w = v::VLogWriter::new(std::sync::Arc::clone(&fs), &path, true).unwrap();
+                            w.append(&rec).is_ok()
+                        };
+                        let end = read_all(&fs).len();
+                        records.push((rec, start, end, ok));
+                    }
+                    "K" => {
+                        let bytes = read_all(&fs);
+                        let keep = n.min(bytes.len());
+                        rewrite(&fs, &bytes[..keep]);
+                        for r in records.iter_mut() {
+                            if r.2 > keep {
+                                r.3 = false;
+                            }
+                        }
+                    }
+                    "X" => {
+                        let mut bytes = read_all(&fs);
+                        if n < bytes.len() {
+                            bytes[n] ^= 0x5a;
+                            rewrite(&fs, &bytes);
+                            for r in records.iter_mut() {
+                                if r.1 <= n && n < r.2 {
+                                    r.3 = false;
+                                }
+                            }
+                        }
+                    }
+                    _ => panic!("bad step"),
+                }
+            }
+            println!("file_len={}", read_all(&fs).len());
+            let expected: Vec<String> = records.iter().enumerate().filter(|(_, r)| r.3).map(|(i, _)| i.to_string()).collect();
+            println!("expected={}", expected.join(","));
+            let mut reader = v::VLogReader::new(std::sync::Arc::clone(&fs), &path).unwrap();
+            let mut got = vec![];
+            let mut end = "more";
+            for _ in 0..(records.len() + 3) {
+                match reader.read_record() {
+                    Ok((_, true)) => {
+                        end = "eof";
+                        break;
+                    }
+                    Ok((data, false)) => {
+                        let id = records.iter().position(|r| r.0 == data).map(|i| i as i64).unwrap_or(-1);
+                        got.push(format!("{}", id));
+                    }
+                    Err(_) => {
+                        end = "err";
+                        break;
+                    }
+                }
+            }
+            println!("returned={}", got.join(","));
+            println!("end={}", end);
+        }
         other => {
             eprintln!("unknown command {}", other);
             std::process::exit(2);
